@@ -34,3 +34,101 @@ def valid_day(y: int, m: int, d: int) -> bool:
 
 def valid_week(y: int, w: int) -> bool:
     return 1 <= w <= weeks(y)
+
+
+# ---- "valid ... string" shapes of the HTML standard (ASCII digits only, nothing before or after) ----------
+from spec.prims import fullmatch, dec, fdec   # noqa: E402
+
+OptStr = TOpt(STR)
+OptNumTup = TOpt(NumTup)
+
+SHAPE_DATE = '[0-9]{4,}-[0-9]{2}-[0-9]{2}'
+SHAPE_MONTH = '[0-9]{4,}-[0-9]{2}'
+SHAPE_WEEK = '[0-9]{4,}-W[0-9]{2}'
+SHAPE_TIME = '[0-9]{2}:[0-9]{2}'
+SHAPE_DATETIME = '[0-9]{4,}-[0-9]{2}-[0-9]{2}T[0-9]{2}:[0-9]{2}'
+SHAPE_NUMBER = '-?([0-9]+(\\.[0-9]+)?|\\.[0-9]+)'
+
+
+def html_date(s: str) -> OptNumTup:
+    if not fullmatch(SHAPE_DATE, s):
+        return None
+    y = dec(s[:-6])
+    m = dec(s[-5:-3])
+    d = dec(s[-2:])
+    if y >= 1 and 1 <= m <= 12 and valid_day(y, m, d):
+        return (y, m, d)
+    return None
+
+
+def html_month(s: str) -> OptNumTup:
+    if not fullmatch(SHAPE_MONTH, s):
+        return None
+    y = dec(s[:-3])
+    m = dec(s[-2:])
+    if y >= 1 and 1 <= m <= 12:
+        return (y, m)
+    return None
+
+
+def html_week(s: str) -> OptNumTup:
+    if not fullmatch(SHAPE_WEEK, s):
+        return None
+    y = dec(s[:-4])
+    w = dec(s[-2:])
+    if y >= 1 and valid_week(y, w):
+        return (y, w)
+    return None
+
+
+def html_time(s: str) -> OptNumTup:
+    if not fullmatch(SHAPE_TIME, s):
+        return None
+    h = dec(s[:2])
+    mi = dec(s[3:])
+    if 0 <= h <= 23 and 0 <= mi <= 59:
+        return (h, mi)
+    return None
+
+
+def html_datetime(s: str) -> OptNumTup:
+    if not fullmatch(SHAPE_DATETIME, s):
+        return None
+    y = dec(s[:-12])
+    m = dec(s[-11:-9])
+    d = dec(s[-8:-6])
+    h = dec(s[-5:-3])
+    mi = dec(s[-2:])
+    if y >= 1 and 1 <= m <= 12 and valid_day(y, m, d) and 0 <= h <= 23 and 0 <= mi <= 59:
+        return (y, m, d, h, mi)
+    return None
+
+
+def html_number(s: str) -> OptNumTup:
+    if not fullmatch(SHAPE_NUMBER, s):
+        return None
+    return (fdec(s),)
+
+
+def html_value(itype: str, value: OptStr) -> OptNumTup:
+    """The comparable value of a min/max/value attribute of <input type=itype>, None when missing or invalid."""
+    if value is None:
+        return None
+    if itype == 'date':
+        return html_date(value)
+    if itype == 'month':
+        return html_month(value)
+    if itype == 'week':
+        return html_week(value)
+    if itype == 'time':
+        return html_time(value)
+    if itype == 'datetime-local':
+        return html_datetime(value)
+    if itype == 'number' or itype == 'range':
+        return html_number(value)
+    return None
+
+
+def week53_lenient(s: str) -> bool:
+    """Region of known finding C18-week53-lenient, in terms of a week string."""
+    return fullmatch(SHAPE_WEEK, s) and dec(s[-2:]) == 53 and 1 <= p_dec31(dec(s[:-4])) <= 3
